@@ -1,13 +1,23 @@
-(** Extraction of the executable model to OCaml (model.ml is written to the directory make runs in, coq/).
-    bool, option, unit, list, prod, sumbool, sumor are mapped to OCaml's; every number
-    type (positive, N, Z, nat) stays the extracted inductive. The output file is written
-    to the directory coqc is run from (ocaml/gen). *)
+(** Extraction of the executable model to OCaml (model.ml is written to the directory make
+    runs in, coq/). ExtrOcamlBasic only: bool, option, unit, list, prod, sumbool, sumor are
+    mapped to OCaml's; every number type (positive, N, Z, nat) stays the extracted inductive. *)
 From Coq Require Import Extraction ExtrOcamlBasic.
-From RV Require Import Model.Common Model.Real32 Model.Num.
+From RV Require Import Model.Common Model.Real32 Model.Num Model.Datum Model.Lexer Model.Reader
+  Model.Macro Model.Ast Model.Transform Model.Value Model.Equal Model.Print Model.Builtins
+  Model.Eval Model.Interp.
 Extraction "model.ml"
   Common.str_eqb Common.errkind_eqb Common.bind Common.mapM
   Real32.f32_of_bits Real32.bits_of_f32 Real32.f32_of_decimal
   Num.num_add Num.num_sub Num.num_mul Num.num_div Num.num_abs Num.num_sqrt Num.num_floor
   Num.num_ceiling Num.num_floor_quotient Num.num_floor_remainder Num.num_exact
   Num.num_eqb Num.num_cmp Num.num_ltb Num.num_leb Num.num_gtb Num.num_geb Num.num_eqv
-  Num.num_max2 Num.num_min2 Num.is_exact.
+  Num.num_max2 Num.num_min2 Num.is_exact
+  Lexer.lex_text Reader.read_text
+  Macro.transform_use Transform.transform_stmt Transform.transform_transformer
+  Value.empty_state Value.env_define Value.env_get
+  Print.display Print.print_f32 Print.print_number
+  Builtins.builtin_table Builtins.tick_table
+  Eval.eval_expr Eval.apply_proc
+  Interp.register_factory Interp.file_chars Interp.factory_from_text Interp.eval_import_set
+  Interp.eval_import Interp.eval_ast Interp.eval_text Interp.eval_file Interp.initial_syntax
+  Interp.new_instance Interp.import_stdlib Interp.default_efuel Interp.native_defs.
